@@ -1,0 +1,18 @@
+//go:build verif
+
+package discovery
+
+// Read-only wrappers around unexported pure functions, for the verification harness in /verif.
+
+func VerifEncode(t uint8, tg string, peers []uint16) []byte {
+	return encodeTagAndMembershipList(msgType(t), tag(tg), peers)
+}
+
+func VerifDecode(msg []byte) (uint8, string, []uint16, error) {
+	t, tg, peers, err := decodeTagAndMembershipList(msg)
+	return uint8(t), string(tg), peers, err
+}
+
+func VerifPRF(key []byte, x uint16) []byte {
+	return makePRF(key)(x)
+}
